@@ -59,7 +59,7 @@ theorem slot_doEcho (ne : Bool) (d : OptDecl) (st : St) (j : Nat) : (doEcho ne d
   split <;> simp
 
 /-- plain option: its value is held in `val` -/
-def OptDecl.plain (d : OptDecl) : Bool := !(d.isWildcard && d.kind != .flag)
+def OptDecl.plain (d : OptDecl) : Bool := !d.logged
 
 /-- the option (and written value) an item assigns, if it is an assignment to a known key -/
 def itemTarget (cfg : Cfg) : Item → Option (OptDecl × Val)
@@ -104,7 +104,7 @@ theorem slot_val_applyItem (cfg : Cfg) (it : Item) (st : St) (i : Nat) (hi : i <
       · subst hid
         have hi' : d.id < (noteMatch d key ob st).slots.length := by rw [(values_noteMatch _ _ _ _).2.2]; exact hi
         rw [slot_modify_same _ _ hi']
-        cases hp : (d.isWildcard && d.kind != .flag) with
+        cases hp : d.logged with
         | false => simp [setValue, hp, OptDecl.plain]
         | true => simp [setValue, hp, OptDecl.plain, slot_noteMatch_val]
       · rw [slot_modify_other _ _ hid]
